@@ -624,6 +624,15 @@ func ownSwitchLiterals(fn *ssa.Function) []string {
 					if s, ok := constString(bo.X); ok && bo.Y == prm {
 						set[s] = true
 					}
+					// table-driven form: the parameter compared with an element of a literal array of strings
+					for _, other := range []ssa.Value{bo.X, bo.Y} {
+						if other == ssa.Value(prm) {
+							continue
+						}
+						for _, lit := range arrayLiteralStrings(other) {
+							set[lit] = true
+						}
+					}
 				}
 			}
 		}
@@ -949,4 +958,69 @@ func checkConstraintTests(p *Prog, c *Closures, r *Result, rule string) {
 			}
 		}
 	}
+}
+
+// arrayLiteralStrings: when v is an element loaded from a local array (or slice of it) that was filled with string
+// constants only, those constants.
+func arrayLiteralStrings(v ssa.Value) []string {
+	var base ssa.Value
+	if ix, ok := v.(*ssa.Index); ok {
+		// element of an array value: the array is a load of the local array
+		l0, ok := ix.X.(*ssa.UnOp)
+		if !ok || l0.Op != token.MUL {
+			return nil
+		}
+		base = l0.X
+	} else {
+		ld, ok := v.(*ssa.UnOp)
+		if !ok || ld.Op != token.MUL {
+			return nil
+		}
+		ia, ok := ld.X.(*ssa.IndexAddr)
+		if !ok {
+			return nil
+		}
+		base = ia.X
+	}
+	if sl, ok := base.(*ssa.Slice); ok {
+		base = sl.X
+	}
+	al, ok := base.(*ssa.Alloc)
+	if !ok || al.Referrers() == nil {
+		return nil
+	}
+	// ranging over an array literal goes through a copy of the array: follow the whole-array store to its source
+	for hops := 0; hops < 3; hops++ {
+		var src *ssa.Alloc
+		for _, rf := range *al.Referrers() {
+			if st, ok := rf.(*ssa.Store); ok && st.Addr == ssa.Value(al) {
+				if l2, ok := st.Val.(*ssa.UnOp); ok && l2.Op == token.MUL {
+					if a2, ok := l2.X.(*ssa.Alloc); ok {
+						src = a2
+					}
+				}
+			}
+		}
+		if src == nil || src.Referrers() == nil {
+			break
+		}
+		al = src
+	}
+	var out []string
+	for _, rf := range *al.Referrers() {
+		ea, ok := rf.(*ssa.IndexAddr)
+		if !ok || ea.Referrers() == nil {
+			continue
+		}
+		for _, r2 := range *ea.Referrers() {
+			if st, ok := r2.(*ssa.Store); ok && st.Addr == ssa.Value(ea) {
+				s, ok := constString(st.Val)
+				if !ok {
+					return nil
+				}
+				out = append(out, s)
+			}
+		}
+	}
+	return out
 }
